@@ -60,7 +60,7 @@ theorem prog_sendCommit {e : Env} {as : State} {i : Nat} {w : W} (h : Good e as 
   | some msg =>
     simp only
     obtain ⟨x, sb, rfl, hf, hxh, hm⟩ := h.rn.commit _ _ hown
-    exact Prog.of_good (good_bcast h _ (by show sb ∈ _ ∧ _; rw [hf, hxh]; exact hm))
+    exact Prog.of_good (good_bcast h _ (by show sb ∈ _ ∧ _ ∧ _; rw [hf, hxh]; exact hm))
   | none =>
     simp only
     cases hh : w.nd.header with
@@ -120,7 +120,7 @@ theorem prog_sendCommit {e : Env} {as : State} {i : Nat} {w : W} (h : Good e as 
       have hlen : w.nd.my < w.nd.commit.length := by rw [h.rn.lens.2.1, hmy]; exact h.lt
       have hbin : b ∈ ((apply (cfgOf e) as1 (.sendCommit i b)).nodes i).myCommits := by rw [hmc]; simp
       have rn1 := g1.rn
-      refine ⟨g1.g.ext x2, ?_, ?_, h.st, h.lt⟩
+      refine ⟨g1.g.ext x2, ?_, ?_, fun b' s hp => g1.blk b' s (by simpa [bcast, W.emit, W.upd] using hp), h.st, h.lt⟩
       · refine ⟨rn1.my, by simpa [bcast, W.emit, W.upd] using rn1.lens, by rw [hc2]; exact rn1.chain, by rw [hh2]; exact rn1.height, ?_, rn1.pidx,
           ?_, ?_, ?_, ?_, ?_, ?_⟩
         · -- phase
@@ -138,7 +138,7 @@ theorem prog_sendCommit {e : Env} {as : State} {i : Nat} {w : W} (h : Good e as 
           · subst hjm
             simp only [bcast, W.emit, W.upd, slot_set_self _ _ _ hlen, Option.some.injEq] at hj
             subst hj
-            exact ⟨_, b, rfl, rfl, rfl, by rw [hmy]; exact hbin, by rw [hbeq]; rfl⟩
+            exact ⟨_, b, rfl, rfl, rfl, by rw [hmy]; exact hbin, by rw [hbeq]; rfl, by rw [hbeq]⟩
           · simp only [bcast, W.emit, W.upd, slot_set_other _ _ _ _ hjm] at hj
             obtain ⟨y, sb, a1, a2, a3, a4⟩ := rn1.commit j m hj
             exact ⟨y, sb, a1, a2, a3, x2.grows.commits _ _ a4.1, a4.2⟩
@@ -158,7 +158,7 @@ theorem prog_sendCommit {e : Env} {as : State} {i : Nat} {w : W} (h : Good e as 
       · intro pl hpl
         simp only [bcast, W.emit, W.upd, List.mem_cons, Out.bcast.injEq] at hpl
         rcases hpl with rfl | hpl
-        · show b ∈ _ ∧ _; rw [hmy]; exact ⟨hbin, by rw [hbeq]⟩
+        · show b ∈ _ ∧ _ ∧ _; rw [hmy]; exact ⟨hbin, by rw [hbeq], by rw [hbeq]⟩
         · exact (g1.outs pl hpl).ext x2
 
 end NeoModel.Dbft.Mach
